@@ -198,4 +198,110 @@ theorem fixedDigits_lt (n x : Nat) : ∀ y ∈ fixedDigits n x, y < 16 := by
     · exact ih _ y hy
     · exact Nat.mod_lt _ (by decide)
 
+/-! ### the specification's `coerce` / `coerceText` (audit follow-up) -/
+
+/-- the two formulations of round-half-even agree -/
+theorem roundMicro_eq (n d : Nat) (hd : 0 < d) : roundMicro n d = roundHalfEven (n * 1000000) d := by
+  unfold roundMicro roundHalfEven
+  generalize n * 1000000 = N
+  have hdm := Nat.div_add_mod N d
+  have hr := Nat.mod_lt N hd
+  have hass : 2 * d * (N / d) = 2 * (d * (N / d)) := Nat.mul_assoc ..
+  have hass1 : 2 * d * (N / d + 1) = 2 * (d * (N / d)) + 2 * d := by
+    rw [Nat.mul_add, Nat.mul_one, hass]
+  by_cases hlt : 2 * (N % d) < d
+  · have key := (Nat.div_mod_unique (a := 2 * N + d) (b := 2 * d) (c := 2 * (N % d) + d) (d := N / d)
+      (by omega)).2 ⟨by rw [hass]; omega, by omega⟩
+    simp only [key.1, key.2]
+    split <;> split <;> omega
+  · by_cases heq : 2 * (N % d) = d
+    · have key := (Nat.div_mod_unique (a := 2 * N + d) (b := 2 * d) (c := 0) (d := N / d + 1)
+        (by omega)).2 ⟨by rw [hass1]; omega, by omega⟩
+      simp only [key.1, key.2]
+      split <;> split <;> (clear key hass hass1 hdm; generalize N / d = q at *; generalize N % d = r at *; first | omega | (simp only [true_and] at *; omega))
+    · have key := (Nat.div_mod_unique (a := 2 * N + d) (b := 2 * d) (c := 2 * (N % d) - d) (d := N / d + 1)
+        (by omega)).2 ⟨by rw [hass1]; omega, by omega⟩
+      simp only [key.1, key.2]
+      split <;> split <;> omega
+
+theorem fmtF6_microText (neg : Bool) (n d : Nat) :
+    fmtF6 neg n d = microText neg (roundHalfEven (n * 1000000) d) := rfl
+
+theorem hexChar_spec (k : Nat) (h : k < 16) : hexChar true k = hexDigitChar k := by
+  have key : ∀ y : Fin 16, hexChar true y.val = hexDigitChar y.val := by decide +kernel
+  exact key ⟨k, h⟩
+
+/-- the reviewer's chain lemma: for a 32-bit word `%08X` prints exactly its eight digits -/
+theorem hexW_eight (d : Nat) (h : d < 2 ^ 32) :
+    hexW true 8 d = String.ofList ((fixedDigits 8 d).map (hexChar true)) := by
+  unfold hexW; rw [padZeros_hexDigits 8 d (by decide) (by omega)]
+
+theorem hexW_hex8Text (d : Nat) (h : d < 2 ^ 32) : hexW true 8 d = hex8Text d := by
+  rw [hexW_eight d h]
+  unfold hex8Text
+  simp only [fixedDigits, List.nil_append, List.cons_append, List.map_cons, List.map_nil]
+  have e7 : d / 16 / 16 / 16 / 16 / 16 / 16 / 16 % 16 = d / 16 ^ 7 % 16 := by omega
+  have e6 : d / 16 / 16 / 16 / 16 / 16 / 16 % 16 = d / 16 ^ 6 % 16 := by omega
+  have e5 : d / 16 / 16 / 16 / 16 / 16 % 16 = d / 16 ^ 5 % 16 := by omega
+  have e4 : d / 16 / 16 / 16 / 16 % 16 = d / 16 ^ 4 % 16 := by omega
+  have e3 : d / 16 / 16 / 16 % 16 = d / 16 ^ 3 % 16 := by omega
+  have e2 : d / 16 / 16 % 16 = d / 16 ^ 2 % 16 := by omega
+  rw [e7, e6, e5, e4, e3, e2]
+  simp only [hexChar_spec _ (Nat.mod_lt _ (by decide : 0 < 16))]
+
+/-- `floatBits` in arithmetic form, all 2^32 words: the IEEE value, or the non-finite class -/
+theorem floatBits_arith (d : Nat) :
+    floatBits d = (match binary32 d with
+      | some (s, n, k) => F64.fin s n k
+      | none => if d % 2 ^ 23 = 0 then .inf (decide (d / 2 ^ 31 % 2 = 1)) else .nan) := by
+  unfold floatBits binary32
+  have e1 : (d >>> 31) &&& 1 = d / 2 ^ 31 % 2 := by
+    rw [shr]; exact and_mask (d / 2 ^ 31) 1
+  have e2 : (d >>> 23) &&& 0xFF = d / 2 ^ 23 % 256 := by rw [shr, and_FF]
+  have e3 : d &&& 0x7FFFFF = d % 2 ^ 23 := by simpa using and_mask d 23
+  simp only [e1, e2, e3]
+  by_cases h255 : d / 2 ^ 23 % 256 = 255
+  · simp only [h255, if_true]
+  · simp only [h255, if_false]
+    by_cases h0 : d / 2 ^ 23 % 256 = 0
+    · simp only [h0, if_true]
+    · simp only [h0, if_false]
+      by_cases h150 : 150 ≤ d / 2 ^ 23 % 256
+      · simp only [h150, if_true]
+      · simp only [h150, if_false]
+
+theorem binary32_den_pos (d : Nat) (s : Bool) (n k : Nat) (h : binary32 d = some (s, n, k)) : 0 < k := by
+  unfold binary32 at h
+  simp only at h
+  split at h
+  · simp at h
+  · split at h
+    · simp only [Option.some.injEq, Prod.mk.injEq] at h; obtain ⟨_, _, rfl⟩ := h; exact Nat.pow_pos (by decide)
+    · split at h
+      · simp only [Option.some.injEq, Prod.mk.injEq] at h; obtain ⟨_, _, rfl⟩ := h; decide
+      · simp only [Option.some.injEq, Prod.mk.injEq] at h; obtain ⟨_, _, rfl⟩ := h; exact Nat.pow_pos (by decide)
+
+theorem complexDen_pos (d : Nat) : 0 < complexDen d := by
+  unfold complexDen; exact Nat.pow_pos (by decide)
+
+/-- the single-valued kinds determine the type number -/
+theorem kind_inv (t : Nat) :
+    (kind t = .string → t = 3) ∧ (kind t = .attribute → t = 2) ∧ (kind t = .reference → t = 1)
+    ∧ (kind t = .float → t = 4) ∧ (kind t = .intHex → t = 0x11) ∧ (kind t = .intBoolean → t = 0x12)
+    ∧ (kind t = .dimension → t = 5) ∧ (kind t = .fraction → t = 6) := by
+  by_cases ht : t < 32
+  · have key : ∀ y : Fin 32,
+        (kind y.val = .string → y.val = 3) ∧ (kind y.val = .attribute → y.val = 2)
+        ∧ (kind y.val = .reference → y.val = 1) ∧ (kind y.val = .float → y.val = 4)
+        ∧ (kind y.val = .intHex → y.val = 0x11) ∧ (kind y.val = .intBoolean → y.val = 0x12)
+        ∧ (kind y.val = .dimension → y.val = 5) ∧ (kind y.val = .fraction → y.val = 6) := by
+      decide +kernel
+    exact key ⟨t, ht⟩
+  · have hn : kind t = .none := by
+      unfold kind
+      rw [if_neg (by omega), if_neg (by omega), if_neg (by omega), if_neg (by omega), if_neg (by omega),
+        if_neg (by omega), if_neg (by omega), if_neg (by omega), if_neg (by omega), if_neg (by omega)]
+    rw [hn]
+    refine ⟨?_, ?_, ?_, ?_, ?_, ?_, ?_, ?_⟩ <;> intro h <;> cases h
+
 end AgVerif.ResValue
